@@ -89,7 +89,9 @@ def dms2deg (degrees minutes seconds : Num) : Num :=
   -- (de, mi, se, sign) = Angle.reduce_dms(degrees, minutes, seconds)
   let (de, mi, se, sign) := reduce_dms degrees minutes seconds
   -- deg = sign * (de + mi / 60.0 + se / 3600.0)
-  sign * (ofInt de + ofInt mi / 60.0 + se / 3600.0)
+  let deg := sign * (ofInt de + ofInt mi / 60.0 + se / 3600.0)
+  -- return Angle.reduce_deg(deg)      (the binary64 sum may round up to a whole turn)
+  reduce_deg deg
 
 /-! ### The constructor / `set` (Angle.py:271): dispatch over the shape of `*args` -/
 
@@ -143,10 +145,10 @@ def angle_set (self : Angle) : Shape → PyRes Angle
     | .ok v => .ok { self with deg := v }
     | .error e => .error e
 
-/-- `Angle.set_ra(*args)` (Angle.py:397): `self.set(*args); self._deg *= 15.0`. -/
+/-- `Angle.set_ra(*args)` (Angle.py:397): `self.set(*args); self._deg = Angle.reduce_deg(self._deg * 15.0)`. -/
 def angle_set_ra (self : Angle) (s : Shape) : PyRes Angle :=
   match angle_set self s with
-  | .ok a => .ok { a with deg := a.deg * 15.0 }
+  | .ok a => .ok { a with deg := reduce_deg (a.deg * 15.0) }
   | .error e => .error e
 
 /-- `Angle.__init__`: `self._deg = 0.0; self._tol = TOL; self.set(*args)`. -/
@@ -288,15 +290,12 @@ def angle_rdiv (a : Angle) (b : Operand) : PyRes Angle :=
 
 /-- `Angle.__rmod__(b)`: `b % self`. -/
 def angle_rmod (a : Angle) (b : Operand) : PyRes Angle :=
-  -- if isinstance(b, (int, float)): b = Angle(b)
-  let b' : Angle := match b with
-    | .ang b => b
-    | .int n => mk (ofInt n)
-    | .flt x => mk x
-  -- sign = 1.0 if b._deg >= 0.0 else -1.0
-  let sign : Num := if ple 0.0 b'.deg then 1.0 else -1.0
-  -- return Angle(sign * (abs(b._deg) % self._deg))
-  match pmodE (pabs b'.deg) a.deg with
+  -- if isinstance(b, Angle): b = b._deg          (an int `b` is converted by `b >= 0.0` / `abs(b) % float`)
+  let bv : Num := b.val
+  -- sign = 1.0 if b >= 0.0 else -1.0
+  let sign : Num := if ple 0.0 bv then 1.0 else -1.0
+  -- return Angle(sign * (abs(b) % self._deg))
+  match pmodE (pabs bv) a.deg with
   | .ok r => .ok (mk (sign * r))
   | .error e => .error e
 
